@@ -327,4 +327,93 @@ theorem endDates_increasing {span : Period} {iv : Interval} {last : Int} {P : Pa
         exact key _ ((tiles_stops_decreasing ht).sublist (List.take_sublist _ _))
           (fun p hp => tiles_within ht p (List.mem_of_mem_take hp))
 
+/-! ### the first reported period (repair `32cd4f9`: `Perf` skips the days before it) -/
+
+theorem tiles_starts_decreasing {a : Int} {iv : Interval} : ∀ {e : Int} {L : List Period}, Tiles a iv e L →
+    List.Pairwise (fun p q => q.stop < p.start) L
+  | _, [], _ => List.Pairwise.nil
+  | e, p :: rest, h => by
+    unfold Tiles at h
+    obtain ⟨_, _, _, _, h5⟩ := h
+    rw [List.pairwise_cons]
+    refine ⟨?_, tiles_starts_decreasing h5⟩
+    intro q hq
+    have := (Tiles.mem_bounds h5 q hq).2.2.1
+    omega
+
+/-- in a newest-first list with decreasing, well-formed periods the oldest start is below every end -/
+theorem oldest_start_le : ∀ (L : List Period), List.Pairwise (fun p q => q.stop < p.start) L →
+    (∀ p ∈ L, p.start ≤ p.stop) → ∀ s, (L.reverse.map (·.start)).head? = some s → ∀ p ∈ L, s ≤ p.stop := by
+  intro L hp hw s hs p hpL
+  rw [List.head?_map, List.head?_reverse] at hs
+  cases hl : L.getLast? with
+  | none => rw [hl] at hs; cases hs
+  | some q =>
+    rw [hl] at hs; injection hs with hs; subst hs
+    have hq : q ∈ L := List.mem_of_getLast? hl
+    by_cases hpq : p = q
+    · subst hpq; exact hw p hpL
+    · -- p comes before q in L
+      obtain ⟨init, hinit⟩ : ∃ init, L = init ++ [q] := List.getLast?_eq_some_iff.mp hl
+      subst hinit
+      rw [List.pairwise_append] at hp
+      have hpi : p ∈ init := by
+        rcases List.mem_append.mp hpL with h | h
+        · exact h
+        · simp at h; exact absurd h hpq
+      have h1 := hp.2.2 p hpi q (by simp)
+      have h2 := hw p hpL
+      have h3 := hw q (by simp)
+      show q.start ≤ p.stop
+      omega
+
+/-- every reported period end inside the span is not before the first reported period start -/
+theorem first_start_le_end {span : Period} {iv : Interval} {last : Int} {P : Partition}
+    (h : newPartition span iv last = .ok P) :
+    ∀ s, P.startDates.head? = some s → ∀ e ∈ P.endDates, span.contains e = true → s ≤ e := by
+  unfold newPartition at h
+  split at h
+  · cases h
+  · injection h with h; subst h
+    unfold Partition.startDates Partition.endDates
+    simp only
+    unfold periodsOf
+    split
+    · intro s hs e he hc
+      simp only [List.map_cons, List.map_nil, List.head?_cons, Option.some.injEq] at hs
+      simp only [List.map_cons, List.map_nil, List.mem_singleton] at he
+      subst hs; subst he
+      simp [Period.contains] at hc; omega
+    · have key : ∀ L : List Period, List.Pairwise (fun p q => q.stop < p.start) L → (∀ p ∈ L, p.start ≤ p.stop) →
+          ∀ s, (L.reverse.map (·.start)).head? = some s → ∀ e ∈ L.reverse.map (·.stop), span.contains e = true → s ≤ e := by
+        intro L hp hw s hs e he _
+        obtain ⟨p, hpL, rfl⟩ := List.mem_map.mp he
+        exact oldest_start_le L hp hw s hs p (List.mem_reverse.mp hpL)
+      by_cases hl : last ≤ 0
+      · have ht := partLoop_tiles span.start iv last span.stop 0 hl
+        exact key _ (tiles_starts_decreasing ht) (fun p hp => (Tiles.mem_bounds ht p hp).2.1)
+      · rw [partLoop_last _ _ _ _ _ (by omega) (Int.le_refl _) (by omega)]
+        have ht := partLoop_tiles span.start iv 0 span.stop 0 (Int.le_refl _)
+        exact key _ ((tiles_starts_decreasing ht).sublist (List.take_sublist _ _))
+          (fun p hp => (Tiles.mem_bounds ht p (List.mem_of_mem_take hp)).2.1)
+
+/-- the period ends `Perf` sees are the period ends inside the span -/
+theorem perfSpan_filter {span : Period} {iv : Interval} {last : Int} {P : Partition}
+    (h : newPartition span iv last = .ok P) :
+    P.endDates.filter (fun e => (perfSpan P).contains e) = P.endDates.filter (fun e => P.span.contains e) := by
+  apply List.filter_congr
+  intro e he
+  have hspan := newPartition_span h
+  unfold perfSpan
+  cases hsd : P.startDates with
+  | nil => rfl
+  | cons s rest =>
+    simp only
+    have hle := first_start_le_end h s (by rw [hsd]; rfl) e he
+    rw [hspan] at *
+    have hle' : span.contains e = true → s ≤ e := hle
+    simp only [Period.contains, Bool.and_eq_true, Bool.not_eq_true', decide_eq_false_iff_not] at hle'
+    simp only [Period.contains]
+    split <;> grind
+
 end Knut.Performance
